@@ -226,8 +226,9 @@ class Verdicts:
         for k in self.known:
             if re.fullmatch(k["key"], key):
                 if k["key"] not in self.known_hits:
-                    self.known_hits[k["key"]] = [k, 0, summary]
+                    self.known_hits[k["key"]] = [k, 0, summary, set()]
                 self.known_hits[k["key"]][1] += 1
+                self.known_hits[k["key"]][3].add(key)
                 return False
         self.violations.append((key, summary, replay))
         return True
@@ -238,7 +239,8 @@ class Verdicts:
 
     def finish(self):
         """Prints KNOWN-FINDING / VIOLATION lines; returns exit code."""
-        for key, (k, n, summ) in self.known_hits.items():
+        for key, (k, n, summ, keys) in self.known_hits.items():
+            log("  known-finding keys seen: %s" % sorted(keys)[:40])
             print("KNOWN-FINDING: property=%s %s [key=%s, seen %d time(s) in this run]" % (self.pid, k["summary"], key, n), flush=True)
         if not self.violations:
             return 0
